@@ -217,6 +217,48 @@ func (fe *forgeEnv) eval(tape []byte, legitHdr map[string]bool, legitContent map
 			badc = append(badc, map[string]interface{}{"name": row.Name, "len": buf.Len(), "sha": sh})
 		}
 	}
+	// the same entries through the filesystem handle (Open + Read until EOF): the streaming read path has its own
+	// way of reporting a failed verification to the reader
+	for _, row := range rows {
+		if row.Deleted != 0 || row.Typeflag != int64(tar.TypeReg) {
+			continue
+		}
+		n := row.Name
+		if !strings.HasPrefix(n, "/") {
+			n = "/" + n
+		}
+		type rd struct {
+			data []byte
+			err  error
+		}
+		ch := make(chan rd, 1)
+		go func() {
+			defer func() {
+				if x := recover(); x != nil {
+					ch <- rd{nil, fmt.Errorf("PANIC %v", x)}
+				}
+			}()
+			r2 := &runner{h: fe.h, in: in2, ks: fe.ks, dir: sub}
+			d, err := r2.readAll(in2.s, n)
+			ch <- rd{d, err}
+		}()
+		select {
+		case x := <-ch:
+			if x.err != nil {
+				if strings.HasPrefix(x.err.Error(), "PANIC") {
+					badc = append(badc, map[string]interface{}{"name": row.Name, "via": "fs", "read": x.err.Error()})
+				}
+				continue
+			}
+			sum := sha256.Sum256(x.data)
+			sh := hex.EncodeToString(sum[:8])
+			if !legitContent[n][sh] {
+				badc = append(badc, map[string]interface{}{"name": row.Name, "via": "fs", "len": len(x.data), "sha": sh})
+			}
+		case <-time.After(8 * time.Second):
+			badc = append(badc, map[string]interface{}{"name": row.Name, "via": "fs", "read": "HANG"})
+		}
+	}
 	if len(badc) > 0 {
 		res["forged_content_returned"] = badc
 	}
